@@ -694,7 +694,10 @@ def run_shard(sh):
                 check_cmeasure_shots({"kind": "cshots", "prog": prog, "n": 2, "n_shots": 2, "K": 2, "max_exec": 20000}, acc)
         if sh["part"] == 0:
             acc.sample({"kind": "cshots", "prog": progs[11], "n": 2, "n_shots": 1, "K": 8}, cap=1)
-    elif k == "cshots_ctl":
+    if k in ("mshots", "cshots") and tier == "quick" and sh["part"] == 0:
+        acc.caps.append("quick tier: sampled modes explore every 5th (MEASURE) / 14th (CMEASURE) program of the length<=4 list; "
+                        "exact mode covers all of them; the thorough tier explores every program in sampled mode too")
+    if k == "cshots_ctl":
         for ctl, prog in ctl_programs(seed):
             acc.states += 1
             check_cmeasure_shots({"kind": "cshots", "prog": prog, "n": 2, "ctl": ctl, "n_shots": 1, "K": 8, "max_exec": 6000}, acc)
